@@ -41,9 +41,18 @@ META = dict(
                 "conforming entries unchanged and to be idempotent (for all vectors, index selections and parameters); input-rewriting "
                 "decorators are proved to change exactly the addressed entries.  The model is tied to mystic.constraints / mystic.tools / "
                 "mystic.math.measures by running both on generated cases on every run."),
-    level_note=("see evidence.assumptions; theorems over R use the stdlib real axioms; refuted clauses (known findings): impose_at with a list "
-                "target and dropped indices raises; integers(ints=True, index=...) truncates unselected entries; synchronized ignores "
-                "(index, factor) sources for numpy arrays; tools.connected does not merge two groups bridged by a later pair (impose_as)."),
+    level_note=("Modelled + proved + compared on every run: impose_bounds/bounded (list and dict bounds, None ends, all four clip/nearest modes; "
+                "random modes proved for any recorded draws in range), discrete, integers, rounded/precision, sorting, monotonic, impose_at, "
+                "masked/insert_missing, partial, synchronized (index and (index,factor) sources), suppressed(clip=True), clipped (scalar bounds), "
+                "with_mean, with_variance (sqrt as an explicit premise), with_spread, normalized, impose_unique(full=list, any shuffle). "
+                "Modelled + compared, partly proved: impose_as (length, untouched entries, single pair; the general clause is refuted by three "
+                "witnesses), suppressed(clip=False) (compared within 1e-9, no theorem). Oracle only: impose_unique(full=None|int|float|dict), "
+                "outer=/exit= variants (identical under the identity function). Not covered: integer-dtype input vectors with non-integral "
+                "parameters (numpy truncates on assignment), callable sources of synchronized, vector-valued clipped bounds, with_std, "
+                "cyclic impose_as masks (the real loop does not terminate). Refuted clauses = known findings: impose_at list target with dropped "
+                "indices raises; integers(ints=True,index) truncates unselected entries; synchronized ignores (index,factor) sources for ndarrays; "
+                "tools.connected does not merge groups bridged by a later pair; impose_as with an offset drifts when the group root is tracked or a "
+                "partner is out of range; suppressed(clip=False) raises on an empty vector. Theorems over R use the stdlib real axioms."),
     design_ref="5/C16")
 
 # ---------------------------------------------------------------------------------------------- generation
@@ -109,6 +118,13 @@ def _intervals(rng):
             bs.append([float(a), float(a + rng.choice([0, 0, 1, 2, 4, 8]))])
     if k == 1 and rng.random() < 0.25:
         bs[0][rng.randrange(2)] = None
+    elif k > 1 and rng.random() < 0.15:
+        lo_i = min(range(k), key=lambda i: bs[i][0])
+        hi_i = max(range(k), key=lambda i: bs[i][1])
+        if rng.random() < 0.5:
+            bs[lo_i][0] = None
+        else:
+            bs[hi_i][1] = None
     if rng.random() < 0.03:
         bs[0] = [bs[0][1], bs[0][0]] if None not in bs[0] else bs[0]   # possibly empty interval (malformed)
     return bs
@@ -212,6 +228,12 @@ def generate(rng, n, tier):
             if not _offset_loop_terminates(pairs):
                 pairs = []
             c.update(mask=pairs, offset=rng.choice([None, 0.0, 0.0, 1.0, 0.5, -2.0]), x=x)
+        elif t == "unique" and rng.random() < 0.3:
+            kind = rng.choice(["none", "int", "float", "dict"])
+            x = [rng.randint(0, 6) for _ in range(rng.choice([1, 2, 3, 4, 5, 6]))]
+            if kind in ("float", "none") and rng.random() < 0.5:
+                x = [v + rng.choice([0.0, 0.5]) for v in x]
+            c.update(full=kind, x=x, lo=min(x) - rng.randint(0, 2), hi=max(x) + rng.randint(1, 3), arr=False)
         elif t == "unique":
             full = [float(v) for v in rng.sample(range(-3, 9), rng.randint(0, 7))]
             if rng.random() < 0.1 and full:
@@ -315,6 +337,11 @@ def _decorator(case):
         return C.impose_at(list(case["index"]), case["target"] if not isinstance(case["target"], list) else list(case["target"]))
     if t == "impose_as":
         return C.impose_as([tuple(p) for p in case["mask"]], case["offset"])
+    if t == "unique" and isinstance(case["full"], str):
+        k = case["full"]
+        full = {"none": None, "int": int, "float": float, "dict": dict(min=case["lo"], max=case["hi"]),
+                "dictint": dict(min=case["lo"], max=case["hi"], type=int)}[k]
+        return C.impose_unique(full)
     if t == "unique":
         return C.impose_unique(list(case["full"]))
     if t == "masked":
@@ -374,7 +401,9 @@ def _call(case, x, rec):
             warnings.simplefilter("ignore")
             with np.errstate(all="ignore"):
                 f = _decorator(case)(lambda v: v)
-                return _canon(f(x))
+                r = f(x)
+                rec["raw"] = r
+                return _canon(r)
     except Exception as e:
         return dict(error=type(e).__name__, msg=str(e)[:120])
     finally:
@@ -385,6 +414,8 @@ def _container(case, vals):
     import numpy as np
     if case["arr"]:
         return np.array(vals, dtype=float)
+    if case["t"] == "unique" and isinstance(case.get("full"), str):
+        return [int(v) if float(v) == int(v) and not isinstance(v, float) else v for v in vals]
     return [float(v) for v in vals]
 
 
@@ -396,8 +427,9 @@ def run_impl(case):
     out = _call(case, _container(case, case["x"]), rec)
     obs = dict(out=out, picks=rec["picks"], unifs=rec["unifs"], shuffled=rec["shuffled"])
     if "v" in out:
+        import copy
         rec2 = dict(picks=[], unifs=[], shuffled=[])
-        obs["again"] = _call(case, _container(case, out["v"]), rec2)
+        obs["again"] = _call(case, copy.copy(rec["raw"]), rec2)      # decorator(...)(identity) applied to its own result
         obs["again_draws"] = len(rec2["picks"]) + len(rec2["unifs"])
     if case["t"] == "impose_as":
         import mystic.tools as T
@@ -502,6 +534,28 @@ def oracle(case, obs):
                                   dict(index=case["index"], target=case["target"], n=n, error=out["error"]))]
             else:
                 exp_err = {"ValueError"}       # malformed: target list does not pair with the indices
+    elif t == "unique" and isinstance(case["full"], str):
+        k = case["full"]
+        allint = all(not isinstance(v, float) for v in case["x"])
+        u = set(x)
+        if k in ("int", "none", "dictint") and (k != "none" or allint):
+            lo, hi = (min(u), max(u)) if k != "dictint" else (F(case["lo"]), F(case["hi"]) - 1)
+            if k == "int" and not allint:
+                exp_err = {"ValueError"}
+            elif k == "dictint" and not (min(u) >= F(case["lo"]) and max(u) < F(case["hi"])):
+                exp_err = {"ValueError"}
+            elif n > hi - lo + 1:
+                exp_err = {"ValueError"}
+            elif k == "dictint" and not allint:
+                exp_err = {"ValueError", "TypeError"}
+        else:
+            lo, hi = (min(u), max(u)) if k != "dict" else (F(case["lo"]), F(case["hi"]))
+            if k == "dict" and not (min(u) >= lo and max(u) < hi):
+                exp_err = {"ValueError"}
+            elif lo == hi and n > 1:
+                exp_err = {"ValueError"}
+        if exp_err is None and "error" in out:
+            pass
     elif t == "unique":
         u = set(x)
         fullset = set(F(v) for v in case["full"])
@@ -700,9 +754,17 @@ def oracle(case, obs):
     elif t == "unique":
         if len(set(y)) != len(y):
             fails.append(_fail("in_target", site, "values-not-pairwise-distinct", out["v"]))
-        full = set(F(v) for v in case["full"])
-        if not set(y) <= full:
-            fails.append(_fail("in_target", site, "value-not-allowed", out["v"]))
+        if isinstance(case["full"], str):
+            k = case["full"]
+            lo, hi = (F(case["lo"]), F(case["hi"])) if k.startswith("dict") else (min(x), max(x))
+            if any(not (lo <= v <= hi) for v in y):
+                fails.append(_fail("in_target", site, "value-not-allowed", out["v"]))
+            if k in ("int", "dictint") and any(v.denominator != 1 for v in y):
+                fails.append(_fail("in_target", site, "value-not-allowed", out["v"]))
+        else:
+            full = set(F(v) for v in case["full"])
+            if not set(y) <= full:
+                fails.append(_fail("in_target", site, "value-not-allowed", out["v"]))
         first = [p for p in range(n) if x[p] not in x[:p]]
         unchanged(first, "conforming_unchanged", "first-occurrence-changed")
     elif t == "masked":
@@ -908,6 +970,8 @@ def coq_terms(case, obs):
     if t == "impose_as":
         m = "(%s : list (Z * Z))" % lst(["(%s, %s)" % (zlit(i), zlit(j)) for i, j in case["mask"]])
         return ["oq_eq (impose_as NumQ %s %s %s) %s" % (m, qlit(case["offset"] or 0), x, _expected(out))]
+    if t == "unique" and isinstance(case["full"], str):
+        return []            # fresh values are drawn at random: oracle only
     if t == "unique":
         sh = obs["shuffled"][0] if obs["shuffled"] else []
         return ["oq_eq (unique_list NumQ %s %s %s) %s" % (_ql(case["full"]), _ql(sh), x, _expected(out))]
@@ -944,6 +1008,8 @@ def coq_terms(case, obs):
     if t == "with_spread":
         return ["oq_close (with_spread NumQ tolQ relQ %s %s) %s" % (tg, x, exp)]
     if t == "normalized":
+        if case["x"] and sum(F(v) for v in case["x"]) == 0 and not _almost(0, case["target"]):
+            return []      # degenerate (sum = 0): the float code divides by a rounding residue of x/w, the exact model returns zeros
         return ["qlist_close (normalized NumQ tolQ relQ %s %s) %s" % (tg, x, _ql(out["v"]))] if "v" in out else []
     return []
 
